@@ -867,6 +867,24 @@ P_ = 'pmutt/omkm/phase.py'
 G_ = 'pmutt/cantera/phase.py'
 R_ = 'pmutt/omkm/reaction.py'
 MUTANTS = [
+    {'name': 'x3 list form assembled from groups that share one source (list(consecutive_groups(...)))',
+     'expect': ('REF.range', '_get_omkm_range'),
+     'edits': [(C_, "            CTI_out = CTI_out.replace('[', '').replace(']', '')\n            CTI_out = CTI_out.split(', ')",
+                "            CTI_out = []\n"
+                "            for header, footer_list in unique_headers.items():\n"
+                "                if header == '':\n"
+                "                    header_delim = header\n"
+                "                else:\n"
+                "                    header_delim = '{}{}'.format(header, delimiter)\n"
+                "                footer_ranges = list(mit.consecutive_groups(footer_list))\n"
+                "                for footer_range in footer_ranges:\n"
+                "                    footers = list(footer_range)\n"
+                "                    if len(footers) > 1:\n"
+                "                        CTI_out.append('\"{0}{1:04d} to {0}{2:04d}\"'.format(\n"
+                "                            header_delim, footers[0], footers[-1]))\n"
+                "                    else:\n"
+                "                        CTI_out.extend('\"{}{:04d}\"'.format(header_delim, footer)\n"
+                "                                       for footer in footers)")]},
     {'name': 'wrap: repeated tokens written once', 'expect': ('REF.wrap-tokens', 'obj_to_cti'),
      'edits': [('pmutt/io/cantera.py', "            cti_str = ' '.join(obj)", "            cti_str = ' '.join(list(dict.fromkeys(obj)))")]},
     {'name': 'wrap: continuation lines indented by the sum of the widths', 'expect': ('REF.wrap-width', 'obj_to_cti'),
